@@ -226,7 +226,7 @@ def subreg(ctx):
     for i, t in calls:
         o = sb.origin(t["ops"][1], through_calls=False)
         ok = o[0] == "call" and re.search(r"atomic::Atomic\w*::fetch_add$", callee_name(o[2]) or "") is not None and \
-            any(a[0] == "field" and a[2] == "sub_id" for a in sb.atoms(o[2]["ops"][0])) and sb.fold(o[2]["ops"][1]) == 1
+            any(a[0] == "field" and a[2] in _counter_fields(ctx, 32) for a in sb.atoms(o[2]["ops"][0])) and sb.fold(o[2]["ops"][1]) == 1
         out.append(Inst("SUBREG", "fresh-subscription-id", ok, sb.site(i), "subscription identifier from %s" % (callee_name(o[2]) if o[0] == "call" else o[0]),
                         "one fetch_add(1) on the shared sub_id counter per subscribe()"))
     return out
@@ -421,32 +421,72 @@ def nonzero(ctx, body, op, depth=0):
     return False, "unrecognised (%s)" % o[0]
 
 
-def nonzero_at(ctx, body, op, bb, depth=0):
-    """nonzero(), additionally accepting a dominating `x != 0` test of the same local at block bb."""
+def _tested_nonzero(body, local, bb):
+    """A dominating edge of bb on which `local != 0` holds."""
+    for (d, s_) in dominating_edges(body, bb):
+        c = Cond(body, d)
+        if c.kind != "cmp":
+            continue
+        n = c.cmp_norm(lambda x: x.get("k") != "const" and not x["pl"]["p"] and (x["pl"]["l"] == local or body.base_local(x) == local))
+        if not n:
+            continue
+        k = body.fold(n[1])
+        truth = c.holds_on(s_)
+        if k is None or truth is None:
+            continue
+        eff = n[0] if truth else {"Eq": "Ne", "Ne": "Eq", "Lt": "Ge", "Ge": "Lt", "Gt": "Le", "Le": "Gt"}[n[0]]
+        if (eff == "Ne" and k == 0) or (eff == "Gt" and k >= 0) or (eff == "Ge" and k >= 1):
+            return "dominated by the test `id %s %d` at %s" % (eff, k, body.site(d))
+    return None
+
+
+def nonzero_at(ctx, body, op, bb, depth=0, _seen=None):
+    """The operand, used in block bb, cannot be zero: a constant, NonZero::get, a value under a dominating `!= 0`
+    test, or a copy of such a value (every definition that can reach the use is examined where it is made)."""
     r = nonzero(ctx, body, op, depth)
     if r[0]:
         return r
-    base = body.base_local(op) if op.get("k") != "const" else None
-    if base is not None:
-        for (d, s_) in dominating_edges(body, bb):
-            c = Cond(body, d)
-            if c.kind != "cmp":
-                continue
-            n = c.cmp_norm(lambda x: x.get("k") != "const" and body.base_local(x) == base)
-            if not n:
-                continue
-            k = body.fold(n[1])
-            truth = c.holds_on(s_)
-            if k is None or truth is None:
-                continue
-            eff = n[0] if truth else {"Eq": "Ne", "Ne": "Eq", "Lt": "Ge", "Ge": "Lt", "Gt": "Le", "Le": "Gt"}[n[0]]
-            if (eff == "Ne" and k == 0) or (eff == "Gt" and k >= 0) or (eff == "Ge" and k >= 1):
-                return True, "dominated by the test `id %s %d` at %s" % (eff, k, body.site(d))
-    return r
+    if op.get("k") == "const" or depth > 8:
+        return r
+    pl = op["pl"]
+    if [p for p in pl["p"] if p != "deref"]:
+        return r
+    _seen = _seen if _seen is not None else set()
+    l = pl["l"]
+    why = _tested_nonzero(body, l, bb)
+    if why:
+        return True, why
+    base = body.base_local(op)
+    if base is not None and base != l:
+        why = _tested_nonzero(body, base, bb)
+        if why:
+            return True, why
+    if l in _seen:
+        return r
+    _seen.add(l)
+    ds = body.whole_defs(l)
+    if not ds:
+        return r
+    reasons = []
+    for d in ds:
+        if d[0] == "stmt" and d[3]["rv"]["k"] == "use" and d[3]["rv"]["op"].get("k") in ("move", "copy"):
+            rr = nonzero_at(ctx, body, d[3]["rv"]["op"], d[1], depth + 1, _seen)
+        elif d[0] == "stmt" and d[3]["rv"]["k"] == "use":
+            rr = nonzero(ctx, body, d[3]["rv"]["op"], depth + 1)
+        elif d[0] == "call":
+            # the result of a call is tested after the call: a test on this local dominating the use was looked for above
+            rr = nonzero(ctx, body, {"k": "copy", "pl": {"l": l, "p": []}}, depth + 1) if len(ds) == 1 else (False, "result of %s" % short_ty(callee_name(d[2]) or "?"))
+        else:
+            rr = (False, "computed value")
+        if not rr[0]:
+            return False, rr[1]
+        reasons.append(rr[1])
+    return True, reasons[0]
 
 
-def identity_of_rmw(ctx, body, op, depth=0):
-    """Is the operand the unmodified result of an atomic read-modify-write (possibly returned by a local helper)?"""
+def identity_of_rmw(ctx, body, op, depth=0, _seen=None):
+    """Is the operand the unmodified result of an atomic read-modify-write (possibly returned by a local helper, possibly
+    one of several such results: `let mut id = next(); while id == 0 { id = next(); }`)?"""
     o = body.origin(op, through_calls=False)
     if o[0] == "call":
         nm = callee_name(o[2]) or ""
@@ -465,6 +505,25 @@ def identity_of_rmw(ctx, body, op, depth=0):
         return False, "computed with `%s` from the counter value" % o[2]["rv"].get("op", o[2]["rv"]["k"])
     if o[0] == "place" and not o[1]["p"] and len(body.whole_defs(o[1]["l"])) == 0:
         return False, "a parameter"
+    if o[0] == "multi" and depth < 6:
+        _seen = _seen if _seen is not None else set()
+        if o[1] in _seen:
+            return True, "(loop)"
+        _seen.add(o[1])
+        res = []
+        for d in body.whole_defs(o[1]):
+            if d[0] == "call":
+                nm = callee_name(d[2]) or ""
+                res.append((bool(re.search(r"atomic::Atomic\w*::fetch_(add|sub)$", nm)), "the result of %s" % short_ty(nm)))
+            elif d[0] == "stmt" and d[3]["rv"]["k"] == "use" and d[3]["rv"]["op"].get("k") in ("move", "copy"):
+                res.append(identity_of_rmw(ctx, body, d[3]["rv"]["op"], depth + 1, _seen))
+            elif d[0] == "stmt":
+                res.append((False, "computed with `%s` from the counter value" % d[3]["rv"].get("op", d[3]["rv"]["k"])))
+            else:
+                res.append((False, "not recognisable"))
+        if res and all(r[0] for r in res):
+            return True, "one of %d read-modify-write results, unchanged" % len(res)
+        return False, [r[1] for r in res if not r[0]][0] if res else "no definition"
     return False, "not recognisable as the counter value (%s)" % o[0]
 
 
@@ -478,6 +537,15 @@ def _return_operands(body):
         if t["k"] == "call" and t["dest"]["l"] == 0 and not t["dest"]["p"]:
             out.append((i, {"k": "copy", "pl": {"l": 0, "p": []}}))
     return out
+
+
+def _counter_fields(ctx, bits):
+    """Names of the ContextHandle fields holding the shared atomic identifier counter of the given width."""
+    h = ctx.facts.adt("client::handle::ContextHandle")
+    if not h:
+        raise AnchorLost("ContextHandle struct")
+    pat = r"Atomic(U%d|<u%d>)" % (bits, bits)
+    return {f["name"] for f in h["variants"][0]["fields"] if re.search(pat, f["ty"])}
 
 
 @rule("IDALLOC", floor=8)
@@ -495,7 +563,8 @@ def idalloc(ctx):
         at = body.atoms(arg)
         rmw = [a[1] for a in at if a[0] == "call" and re.search(r"atomic::Atomic\w*::(fetch_\w+|compare_exchange\w*|swap)$", a[1])]
         loads = [a[1] for a in at if a[0] == "call" and re.search(r"atomic::Atomic\w*::(load|store)$", a[1])]
-        onctr = any(a[0] == "field" and a[2] == "packet_id" for a in at)
+        ctr_fields = _counter_fields(ctx, 16)
+        onctr = any(a[0] == "field" and a[2] in ctr_fields for a in at)
         helper = None
         o = body.origin(arg, through_calls=False)
         if o[0] == "call":
@@ -509,7 +578,7 @@ def idalloc(ctx):
                         nm = callee_name(tt) or ""
                         if re.search(r"atomic::Atomic\w*::(fetch_\w+|compare_exchange\w*|swap)$", nm):
                             rmw.append(nm)
-                            onctr = onctr or any(a[0] == "field" and a[2] == "packet_id" for a in cb.atoms(tt["ops"][0]))
+                            onctr = onctr or any(a[0] == "field" and a[2] in ctr_fields for a in cb.atoms(tt["ops"][0]))
                         if re.search(r"atomic::Atomic\w*::(load|store)$", nm):
                             loads.append(nm)
         k = "%s#%d" % (name, len([x for x in out if x.key.startswith("IDALLOC:%s#" % name) and x.key.endswith(":rmw")]))
